@@ -637,4 +637,9 @@ BUILDERS = {"lut_mixed": lut_mixed, "shape_out": shape_out, "transpose_perm": tr
 
 
 def build(rng, idx, pattern, variant=None):
+    if pattern not in BUILDERS:
+        # round-5 families live in their own modules
+        import gen_multiout
+
+        BUILDERS.update({"multi_out_cpu": gen_multiout.multi_out_cpu})
     return BUILDERS[pattern](rng, idx, variant)
